@@ -7,6 +7,7 @@ import (
 	enchex "encoding/hex"
 	"fmt"
 	"runtime"
+	"strconv"
 	"strings"
 
 	"github.com/ctessum/geom"
@@ -31,7 +32,7 @@ const (
 func init() {
 	core.Register(&core.Prop{
 		ID: "C07",
-		Rule: "case = one seed encoding (valid WKB in either/mixed byte order, or a GeoJSON document) together with its mutation family: truncation at every offset, single-bit flips, every count field inflated to {n+1,2n,2^16,2^24,2^28,2^31,2^32-1}, unknown/EWKB type codes, bad byte-order flags, marker floating-point patterns (canonical NaNs, infinities, -0, MaxFloat64) written into one or both ordinates of a vertex, collections nested up to the 64 KiB limit, random byte strings, malformed hex, grammar-generated JSON with arbitrarily shaped coordinates members, hand-built Geometry values; every decoder call runs under recover() with heap-allocation accounting (runtime.ReadMemStats TotalAlloc deltas, single goroutine) in a child process with RLIMIT_AS=4GiB; " +
+		Rule: "case = one seed encoding (valid WKB in either/mixed byte order, or a GeoJSON document) together with its mutation family: truncation at every offset, single-bit flips, every count field inflated to {n+1,2n,2^16,2^24,2^28,2^31,2^32-1}, unknown/EWKB type codes, bad byte-order flags, marker floating-point patterns (canonical NaNs, infinities, -0, MaxFloat64) written into one or both ordinates of a vertex, collections nested up to the 64 KiB limit, random byte strings, malformed hex, grammar-generated JSON with arbitrarily shaped coordinates members, wide documents of 255..2049 small members with one malformed position, hand-built Geometry values; every decoder call runs under recover() with heap-allocation accounting (runtime.ReadMemStats TotalAlloc deltas, single goroutine) in a child process with RLIMIT_AS=4GiB; " +
 			"an evaluation is one decoder call; non-trivial = mutated/hostile input (distinct by input hash) on which the decoder returned an error or a geometry that survived the re-encode fixpoint",
 		Assumptions: []string{"'memory bounded by a constant multiple of the input' is restated as ΔTotalAlloc <= K*len+C with K=64 (WKB, hex), 256 (GeoJSON), C=64KiB", "inputs up to 64 KiB", "hand-built Geometry values are only required not to panic"},
 		Phases: []core.Phase{{Name: "hostile", NumCases: func(t string) int {
@@ -679,6 +680,40 @@ func (e *env) jsonFamily(r *gen.R) {
 			m := append([]byte{}, txt...)
 			m[r.Intn(len(m))] = byte(r.Uint64())
 			e.tryJSON("bytesubst", m)
+		}
+	}
+	// wide documents: hundreds to thousands of small members (still below 64 KiB), valid except
+	// for ONE position, ring or member that is malformed somewhere in the middle or at the end
+	for k := 0; k < 3; k++ {
+		ty := []string{"MultiPolygon", "MultiLineString", "MultiPoint", "Polygon", "LineString"}[r.Intn(5)]
+		n := []int{255, 256, 257, 1023, 1024, 1025, 1500, 2049}[r.Intn(8)]
+		badAt := gen.EdgePos(r, n)
+		if r.Chance(0.15) {
+			badAt = -1 // no defect at all
+		}
+		bad := []string{"[1,2,3]", "[1]", "[]", `["1",2]`, "null", "[[1,2]]", "1", "[1,null]", "{}"}[r.Intn(9)]
+		var sb strings.Builder
+		sb.WriteString(`{"type":"` + ty + `","coordinates":[`)
+		for i := 0; i < n; i++ {
+			if i > 0 {
+				sb.WriteString(",")
+			}
+			pos := "[" + strconv.Itoa(i%90) + "," + strconv.Itoa(i%80) + "]"
+			if i == badAt {
+				pos = bad
+			}
+			switch ty {
+			case "MultiPolygon":
+				sb.WriteString("[[[0,0],[1,0]," + pos + ",[0,0]]]")
+			case "MultiLineString", "Polygon":
+				sb.WriteString("[[0,0]," + pos + "]")
+			default:
+				sb.WriteString(pos)
+			}
+		}
+		sb.WriteString("]}")
+		if sb.Len() <= 65536 {
+			e.tryJSON("wide_members", []byte(sb.String()))
 		}
 	}
 	// grammar-generated syntactically valid documents
